@@ -12,6 +12,7 @@ import Driver.Sys
 import Driver.Dump
 import Driver.Oom
 import Driver.Hist
+import Driver.Res
 
 def main (args : List String) : IO UInt32 := do
   let stdin ← IO.getStdin
@@ -30,4 +31,5 @@ def main (args : List String) : IO UInt32 := do
   | ["dump"] => Driver.Dump.run stdin; return 0
   | ["oom"] => Driver.Oom.run stdin; return 0
   | ["hist"] => Driver.Hist.run stdin; return 0
+  | ["res"] => Driver.Res.run stdin; return 0
   | _ => IO.eprintln "usage: kdfdrv <stream>"; return 2
